@@ -75,6 +75,8 @@ structure St where
   cur : List Nat             -- current origin version per key
   bigs : List (Nat × Nat)    -- (key, version) stored in the rock cache_dir only
   writes : List Nat          -- keys in the order they were written (fetched responses stored)
+  unc : List Nat             -- keys whose cache state depends on how a read inside a pause window went (hit, or a miss that
+                             -- replaced the entry being written): until the next reload, a hit may be a miss and a PURGE may find nothing
   out : List (Nat × String)  -- (operation index, token)
 
 def curOf (st : St) (k : Nat) : Nat := (st.cur[k]?).getD 1
@@ -116,7 +118,7 @@ def finishReader (st : St) (i r : Nat) (bigHit : Bool) : St :=
 def doPurge (st : St) (i k : Nat) : St :=
   let a := st.s.anchors k
   let found := a.key == some k && !a.wtbf
-  emit { st with s := freeKey hashId st.s k } i (if found then "P=200" else "P=404")
+  emit { st with s := freeKey hashId st.s k } i (if found then (if st.unc.contains k then "P=200|P=404" else "P=200") else "P=404")
 
 /-- operations that run one after the other -/
 def seqOp (sc : Sc) (st : St) (i : Nat) (op : Op) : St :=
@@ -127,13 +129,13 @@ def seqOp (sc : Sc) (st : St) (i : Nat) (op : Op) : St :=
       -- rock: the disker writes asynchronously; a write that finds the slot still locked by the previous write of the key fails and
       -- releases the entry everywhere, so after two writes of a key a predicted hit may also be a miss
       let rdBig := (st.bigs.any (fun p => p.1 == k && p.2 == (st.s.anchors k).ver)) ||
-                   (sc.inst == "r" && (st.writes.filter (· == k)).length ≥ 2)
+                   (sc.inst == "r" && (st.writes.filter (· == k)).length ≥ 2) || st.unc.contains k
       finishReader { st with s := s1 } i st.s.nextR rdBig
     else missFetch sc st i w k
   | .P _ k => doPurge st i k
   | .U w k n m _ =>
     let v := curOf st k + 1
-    let st0 := setCur st k v
+    let st0 := setCur { st with unc := st.unc.filter (· != k) } k v
     let st0 := if isBig sc n then { st0 with bigs := (k, v) :: st0.bigs } else st0
     let r := beginWrite st0 w k v (!isBig sc n && m != 3)
     let st1 := if r.2 then { r.1 with s := append bodies r.1.s w k 1 } else r.1
@@ -152,7 +154,7 @@ def winOp (sc : Sc) (st : St) (i : Nat) (op : Op) (k0 _m0 w0 : Nat) (pend : List
       let sLocal := if w == w0 && a0.writer == some w0 then startApp st.s w0 k else st.s
       let s1raw := openR hashId sLocal w k
       let s1 := if w == w0 && a0.writer == some w0 then setA s1raw k { (s1raw.anchors k) with appending := a0.appending } else s1raw
-      if s1.nextR > st.s.nextR then ({ st with s := s1 }, pend ++ [(i, st.s.nextR)])
+      if s1.nextR > st.s.nextR then ({ st with s := s1, unc := k :: st.unc }, pend ++ [(i, st.s.nextR)])
       else (missFetch sc st i w k, pend)
     else (seqOp sc st i op, pend)
   | _ => (seqOp sc st i op, pend)
@@ -175,7 +177,7 @@ def go (sc : Sc) : Nat → Nat → List Op → St → St
     | .U w k n m j =>
       if m ≥ 1 && j > 0 then
         let v := curOf st k + 1
-        let st0 := setCur st k v
+        let st0 := setCur { st with unc := st.unc.filter (· != k) } k v
         let st0 := if isBig sc n then { st0 with bigs := (k, v) :: st0.bigs } else st0
         let r := beginWrite st0 w k v (!isBig sc n && m != 3)
         let st1 := if r.2 then { r.1 with s := append bodies r.1.s w k 1 } else r.1
@@ -195,7 +197,7 @@ def go (sc : Sc) : Nat → Nat → List Op → St → St
     | _ => go sc fuel (i + 1) rest (seqOp sc st i op)
 
 def simulate (sc : Sc) : String :=
-  let st := go sc 40 0 sc.ops { s := State.init, cur := [], bigs := [], writes := [], out := [] }
+  let st := go sc 40 0 sc.ops { s := State.init, cur := [], bigs := [], writes := [], unc := [], out := [] }
   let toks := (List.range sc.ops.length).map (fun i =>
     match st.out.find? (fun p => p.1 == i) with
     | some p => p.2
